@@ -7,7 +7,7 @@
      k_sp_min      smallest non-zero sqrt price (raw, 10^-18 units) the pool has had so far (0 = none) *)
 From Coq Require Import ZArith List Bool.
 Import ListNotations.
-From Sunrise Require Export Amm.AmmCheck Amm.Custody.
+From Sunrise Require Export Amm.AmmCheck Amm.LiqDefs Amm.Custody.
 Local Open Scope Z_scope.
 
 Record c02_case := { k_case : amm_case; k_nops : Z; k_others_same : bool; k_in : vec; k_out : vec; k_sp_min : Z }.
@@ -82,6 +82,14 @@ Definition mon_solvent (c : amm_case) : bool :=
 Definition mon_fee_solvent (c : amm_case) : bool := fee_solvent_b (c_post c).
 (* balances never negative *)
 Definition mon_nonneg (c : amm_case) : bool := bal_nonneg_b (c_post c).
+(* the custody theorems (C02_exit_pays_owed, C02_exit_never_short, C02_custody_partial) assume the
+   bookkeeping invariant [Inv] of C04 on the state they start from: every bound of an open position is
+   an initialised tick whose gross/net liquidity are the sums over the positions it bounds, no other
+   tick is stored, active liquidity = sum of in-range positions.  A tick record removed or kept for
+   the wrong bound makes later swaps trade with liquidity nobody provides (or miss liquidity that is
+   there), which is how a bookkeeping fault becomes a custody fault; [liq_inv_b] is the decision
+   procedure proved complete for [Inv] (C04_monitor_complete), evaluated here on every post-state. *)
+Definition mon_bookkeeping (c : amm_case) : bool := liq_inv_b (c_post c).
 
 (* ---- known finding C02-F1: half-even intermediate rounding in CalcAmountBaseDelta ----
    CalcAmountBaseDelta = ((sb - sa) * liq / sb / sa) rounds the product and both quotients to the
@@ -121,6 +129,7 @@ Definition c02_check (k : c02_case) : list Z :=
   flag 6 (mon_fee_solvent c) ++
   flag 7 (mon_flows k) ++
   flag 8 (mon_nonneg c) ++
+  flag 9 (mon_bookkeeping c) ++
   (if solv && ex then []
    else (if trig_f1 k then [101] else []) ++ (if trig_f1_exit k then [102] else [])).
 
